@@ -27,6 +27,7 @@ import (
 	"net/http/httptest"
 	"net/url"
 	"os"
+	"runtime/debug"
 	"strings"
 	"sync"
 	"testing"
@@ -257,7 +258,7 @@ func vL18Run(wk *vL18Worker, scn vL18Scenario) []map[string]interface{} {
 		defer close(done)
 		defer func() {
 			if r := recover(); r != nil {
-				g.log(map[string]interface{}{"ev": "panic", "what": fmt.Sprint(r)})
+				g.log(map[string]interface{}{"ev": "panic", "what": fmt.Sprint(r), "stack": string(debug.Stack())})
 			}
 		}()
 		req := httptest.NewRequest("GET", "http://controller.example/arvados/v1/collections/"+request, nil).WithContext(parent)
